@@ -26,6 +26,11 @@ type Ctx struct {
 	// only under --client are outside this family's dialect too.
 	NeedClient bool
 
+	// discriminated: object components that carry a oneOf discriminator property
+	// (shared by all variants); they are not reused as allOf members, whose property
+	// names are kept pairwise disjoint.
+	discriminated map[string]bool
+
 	respUses map[string]string
 }
 
@@ -315,7 +320,7 @@ func (c *Ctx) objectComponent(depth int, label string, fresh bool) string {
 		var have []string
 		for _, name := range SortedKeys(c.Doc.Components.Schemas) {
 			s := c.Doc.Components.Schemas[name]
-			if s.Ref == "" && s.Type == "object" && len(s.Properties) > 0 && !s.Nullable && s.AdditionalProperties == nil {
+			if s.Ref == "" && s.Type == "object" && len(s.Properties) > 0 && !s.Nullable && s.AdditionalProperties == nil && !c.discriminated[name] {
 				have = append(have, name)
 			}
 		}
@@ -370,6 +375,10 @@ func (c *Ctx) oneOfSchema(depth int) *Schema {
 			obj.Properties[prop] = &Schema{Type: "string"}
 			obj.Required = append(obj.Required, prop)
 			sort.Strings(obj.Required)
+			if c.discriminated == nil {
+				c.discriminated = map[string]bool{}
+			}
+			c.discriminated[name] = true
 			s.OneOf = append(s.OneOf, &Schema{Ref: RefSchemas + name})
 			if withMapping {
 				key := c.PlainName("m", "mapkey")
